@@ -42,7 +42,9 @@ pub fn gen(seed: u64, tier: Tier) -> ScenarioSpec {
     if rng.chance(1, 2) {
         let n = 1 + rng.below(5);
         for _ in 0..n {
-            let name = match rng.below(8) {
+            let name = match if rng.chance(1, 8) { 99 } else { rng.below(8) } {
+                // names are bytes: some are not ASCII, some not even UTF-8 (Latin-1, a lone Shift-JIS lead byte, 0xFF 0xFE)
+                99 => (*rng.pick(&["r\u{e9}sum\u{e9}.txt", "\u{30e1}\u{30e2}.txt", "raw:caf\u{e9}.txt", "raw:\u{ff}\u{fe}notes", "raw:\u{83}", "raw:start.raw\u{80}", "raw:\u{e9}/metadata.json.\u{e9}"])).to_string(),
                 6 => {
                     // a long (GNU) name whose first 100 bytes end in a known entry name: only the full name says it is unknown
                     let k = *rng.pick(&["start.raw", "end.raw", "peppi.json", "metadata.json", "frames.arrow", "gecko_codes.raw", "start.json"]);
